@@ -27,7 +27,8 @@ type ctl struct {
 	drain         atomic.Bool
 	observer      bool // free-running mode: gates only log
 	blockedEvents int
-	calls         int // observer: API call counter
+	created       map[string]bool // tables whose CreateTable has returned
+	calls         int             // observer: API call counter
 }
 
 const (
@@ -53,13 +54,14 @@ type proc struct {
 }
 
 type gEntry struct {
-	ID  int    `json:"id"`
-	Tab string `json:"tab"`
-	Loc string `json:"loc"`
+	ID     int    `json:"id"`
+	Tab    string `json:"tab"`
+	Loc    string `json:"loc"`
+	Create bool   `json:"create,omitempty"` // not an entry: CreateTable(Tab)
 }
 
 func newCtl(observer bool) *ctl {
-	return &ctl{procs: map[string]*proc{}, byGid: map[int64]*proc{}, observer: observer}
+	return &ctl{procs: map[string]*proc{}, byGid: map[int64]*proc{}, observer: observer, created: map[string]bool{}}
 }
 
 func goid() int64 {
@@ -79,6 +81,9 @@ func splitLabel(full string) (string, string) {
 
 func stepLine(p *proc, label, tab string) map[string]any {
 	m := map[string]any{"e": "step", "p": p.name, "l": label, "id": 0, "tab": tab, "loc": ""}
+	if label == "create" && p.cur != nil {
+		m["tab"] = p.cur.Tab
+	}
 	if label == "ins" && p.cur != nil {
 		m["id"], m["tab"], m["loc"] = p.cur.ID, p.cur.Tab, p.cur.Loc
 	}
@@ -136,6 +141,32 @@ func (c *ctl) spawn(name string, f func(p *proc)) {
 		}()
 		f(p)
 	}()
+}
+
+func (c *ctl) setCreated(t string) {
+	c.mu.Lock()
+	c.created[t] = true
+	c.mu.Unlock()
+}
+
+func (c *ctl) isCreated(t string) bool {
+	c.mu.Lock()
+	defer c.mu.Unlock()
+	return c.created[t]
+}
+
+// eligible drops the goroutines parked in front of an InsertData into a table that does not exist yet.
+func (c *ctl) eligible(ps []*proc) []*proc {
+	c.mu.Lock()
+	defer c.mu.Unlock()
+	var out []*proc
+	for _, p := range ps {
+		if p.w.label == "ins" && p.cur != nil && !c.created[p.cur.Tab] {
+			continue
+		}
+		out = append(out, p)
+	}
+	return out
 }
 
 func (c *ctl) setCur(p *proc, e *gEntry) {
